@@ -18,7 +18,7 @@ import (
 
 func lexFamilies(tier string) ([]string, map[string][]*gram.Grammar) {
 	th := tier == "thorough"
-	return []string{"L1", "L2", "L3", "L4", "L5", "L6", "L7"}, map[string][]*gram.Grammar{"L1": gram.L1(th), "L2": gram.L2(th), "L3": gram.L3(th), "L4": gram.L4(), "L5": gram.L5(), "L6": gram.L6(), "L7": gram.L7()}
+	return []string{"L1", "L2", "L3", "L4", "L5", "L6", "L7", "L8"}, map[string][]*gram.Grammar{"L1": gram.L1(th), "L2": gram.L2(th), "L3": gram.L3(th), "L4": gram.L4(), "L5": gram.L5(), "L6": gram.L6(), "L7": gram.L7(), "L8": realLexGrammars()}
 }
 
 func strLits(g *gram.Grammar) []string {
@@ -123,10 +123,10 @@ func lexSweep(sw *sweeper, r *ev.Run, tier string, count bool) (leads []lexLead,
 
 // selectLexCorpus picks, per family, the smallest grammars with pairwise distinct emitted tables, up to a budget.
 func selectLexCorpus(sel map[string][]lexSel, order []string, leads []lexLead, tier string) []*corp.Item {
-	budget := map[string]int{"L1": 30, "L2": 40, "L3": 12, "L4": 18, "L5": 33, "L6": 20, "L7": 6}
+	budget := map[string]int{"L1": 30, "L2": 40, "L3": 12, "L4": 18, "L5": 33, "L6": 20, "L7": 6, "L8": 4}
 	maxLeads := 12
 	if tier == "thorough" {
-		budget = map[string]int{"L1": 220, "L2": 260, "L3": 60, "L4": 18, "L5": 33, "L6": 20, "L7": 15}
+		budget = map[string]int{"L1": 220, "L2": 260, "L3": 60, "L4": 18, "L5": 33, "L6": 20, "L7": 15, "L8": 14}
 		maxLeads = 40
 	}
 	var items []*corp.Item
